@@ -88,15 +88,22 @@ func yamlUnmarshalStream(in []byte) ([]any, error) {
 }
 
 func yamlTranslateNode(node *yaml.Node) (any, error) {
+	return yamlTranslateNodeRec(node, map[*yaml.Node]struct{}{})
+}
+
+// active holds the anchored nodes whose aliases are currently being expanded,
+// so that an anchor containing an alias to itself ("a: &x [*x]") is reported
+// instead of recursing forever.
+func yamlTranslateNodeRec(node *yaml.Node, active map[*yaml.Node]struct{}) (any, error) {
 	switch node.Kind {
 	case yaml.DocumentNode:
-		return yamlTranslateNode(node.Content[0])
+		return yamlTranslateNodeRec(node.Content[0], active)
 
 	case yaml.SequenceNode:
 		ret := []any{}
 
 		for _, v := range node.Content {
-			v2, err := yamlTranslateNode(v)
+			v2, err := yamlTranslateNodeRec(v, active)
 			if err != nil {
 				return nil, err
 			}
@@ -112,7 +119,7 @@ func yamlTranslateNode(node *yaml.Node) (any, error) {
 		// First see if there's a merge statement, and merge the referenced map(s) into ret.
 		for i := 0; i+1 < len(node.Content); i += 2 {
 			if node.Content[i].Value == "<<" {
-				v2, err := yamlTranslateNode(node.Content[i+1])
+				v2, err := yamlTranslateNodeRec(node.Content[i+1], active)
 				if err != nil {
 					return nil, err
 				}
@@ -130,7 +137,7 @@ func yamlTranslateNode(node *yaml.Node) (any, error) {
 				continue
 			}
 
-			v2, err := yamlTranslateNode(node.Content[i+1])
+			v2, err := yamlTranslateNodeRec(node.Content[i+1], active)
 			if err != nil {
 				return nil, err
 			}
@@ -167,7 +174,14 @@ func yamlTranslateNode(node *yaml.Node) (any, error) {
 		}
 
 	case yaml.AliasNode:
-		return yamlTranslateNode(node.Alias)
+		if _, found := active[node.Alias]; found {
+			return nil, fmt.Errorf("yaml alias *%s: %w", node.Value, ErrCircularRef)
+		}
+
+		active[node.Alias] = struct{}{}
+		defer delete(active, node.Alias)
+
+		return yamlTranslateNodeRec(node.Alias, active)
 
 	case 0:
 		return nil, nil
